@@ -3,8 +3,10 @@
 Two ties of the register models to the code, both exercised on every run:
  (1) TRANSLATOR + THEOREMS (Props/C13Gen.v): tools/translate_regs.py regenerates an instruction-level model of every
      straight-line SimdRegister<T> method (impl_*.rs and the trait defaults) over the intrinsic vocabulary of
-     Model/Intrinsics.v; Coq proves that every generated definition, on the byte/lane encoding of arbitrary registers,
-     computes what the lane-level model (Model/Regs.v; NEON: the lane-wise scalar specification) says.
+     Model/Intrinsics.v, and of the scalar loops over the transmuted lanes (integer div, NEON i64/u64 mul/max/min) over
+     the loop / array-store / panic vocabulary of Model/RustLoops.v; Coq proves that every generated definition, on the
+     byte/lane encoding of arbitrary registers, computes what the lane-level model (Model/Regs.v; NEON: the lane-wise
+     scalar specification) says — for the option-valued (may-panic) ones: panics exactly when the model does.
  (2) CORRESPONDENCE (B) (checks/regrun.py): every method of every executable back end against the lane-level models on
      the hardware.
 Props/C13.v says the lane-level models are the lane-wise scalar operations for ALL register contents."""
@@ -36,7 +38,10 @@ def run(ctx):
     ctx.trusted += ["Coq 8.16.1 kernel (+ vm_compute for the shape facts and the non-vacuity examples)",
                     "Model/Intrinsics.v: the meaning of the ~330 core::arch intrinsic names (x86 from the Intel pseudo-code, the "
                     "stdarch-implemented ones and NEON from the installed rust-src, Arm ARM for FMAX/FMIN/Reduce), integer vectors "
-                    "as byte lists; tools/translate_regs.py: Rust straight-line method bodies -> Gallina over that vocabulary",
+                    "as byte lists; Model/RustLoops.v: the scalar-loop fragment (`for (idx, (x, y)) in zip(A, B).enumerate()`, "
+                    "`a[i] = v` with its bounds check, `[v; N]`, panic = None sequenced by obind); tools/translate_regs.py: Rust "
+                    "method bodies of that fragment -> Gallina over these vocabularies (incl. `AutoMath::m` at a concrete integer "
+                    "type read as the StdMath record of Gen/GenMath.v, checked equal to FastMath's field)",
                     "Model/Regs.v: lane-level register models (tied to the generated instruction-level model by the theorems of "
                     "Props/C13Gen.v, and to the hardware by correspondence B, bit for bit)",
                     "Model/Prim.v: meaning of the scalar primitives (wrapping_*, Flocq IEEE operations)",
@@ -44,16 +49,22 @@ def run(ctx):
                     "extraction with ExtrOcamlBasic only"]
     ctx.assumptions += ["NEON is not executable here: its methods are tied by the generated model only (Props/C13Gen.v: against the "
                         "lane-wise scalar specification), never run",
-                        "methods outside the translated fragment — load / write (raw pointers), integer div and div_dense (scalar loop "
-                        "that panics on a zero divisor), the scalar-loop NEON i64/u64 mul / max / min and what is built on them, the "
-                        "AVX2 f64 sum_to_value (poison register + bit-casts), Fallback div / elements_per_lane — are listed in evidence "
-                        "extra.generated_model.untranslated and stay tied by correspondence B only (NEON: by reading only)",
+                        "methods outside the translated fragment — load / write / load_dense / write_dense (raw pointers; footprints "
+                        "are tied by Props/C07Mem.v), the AVX2 / AVX2+FMA f64 sum_to_value (poison register + bit-casts between float "
+                        "vector types; hand model Model/Poison.v, C08), Fallback elements_per_lane / elements_per_dense (mem::size_of "
+                        "of the generic type) — are listed in evidence extra.generated_model.untranslated and stay tied by "
+                        "correspondence B only (NEON load / write: by reading only)",
                         "load/write are modelled at index level (firstn/skipn/splice); addresses and alignment are observed "
                         "by the guard-page runs of C01/C07, not proved"]
     facts = ctx.translate(steps=("regs",))
     regs = (facts or {}).get("regs") or {}
     gm = {"triples": regs.get("triples"), "translated_and_proved": 0, "translated": regs.get("translated"),
+          "may_panic_option_valued": len(regs.get("may_panic", [])), "untranslated_total": len(regs.get("untranslated", [])),
           "untranslated": [], "restricted_searches": []}
+    by_reg = {}
+    for k in regs.get("translated_list", []):
+        by_reg[k.split(" ")[0]] = by_reg.get(k.split(" ")[0], 0) + 1
+    gm["translated_by_register"] = by_reg
     by_reason = {}
     for u in regs.get("untranslated", []):
         by_reason.setdefault(u.get("category") or u["reason"], []).append("%s/%s/%s" % (u["reg"], u["ty"], u["method"]))
